@@ -156,11 +156,23 @@ def hist_run(eng, IM, shape, depth, fail, concrete=None):
     roots = list(mesh.elements)
     root_boxes = [(e.vertices[0].x, e.vertices[0].y, e.vertices[2].x, e.vertices[2].y) for e in roots]
     hist = []
+    # a lookup before any refinement (callers interleave lookups and refinements on one mesh object)
+    v0 = mesh.vertices[0]
+    if mesh.vertex_from_coords((v0.x, v0.y)) is not v0:
+        fail('lookup', 'vertex_from_coords does not return the root corner it was asked for', None)
     for step in range(depth):
         lv = leaves_sorted(mesh)
         i = concrete['actions'][step] if concrete else eng.choice(len(lv))
         hist.append(i)
-        mesh.refine(lv[i])
+        children = mesh.refine(lv[i])
+        # the centre of the refined cell is a vertex now and must be retrievable at once
+        c = children[0].vertices[2]
+        if mesh.vertex_from_coords((c.x, c.y)) is not c:
+            fail('lookup', 'a vertex created by refine() is not retrievable through vertex_from_coords afterwards', None)
+    for v in mesh.vertices:
+        if mesh.vertex_from_coords((v.x, v.y)) is not v:
+            fail('lookup', 'vertex %r is in mesh.vertices but vertex_from_coords does not return it' % (v, ), None)
+            break
     boxes = check_quadtree(eng, mesh, roots, root_boxes, fail)
     bad = balance_violations(boxes, root_pos)
     if bad:
@@ -252,6 +264,16 @@ def bdr_run(eng, IM, name, piece_idx, level, fail, concrete=None):
             ok, m = eng.prove(z3.And(z3bool(eng_close(v.x, pt[0])), z3bool(eng_close(v.y, pt[1]))), 'bdr:vertex')
             if not ok:
                 fail('bdr:vertex', 'vertex_from_coords returned a vertex away from the end point', m)
+    # a second boundary segment on the SAME mesh object (the far half of the next unit piece), then its end points
+    (p2, d2, ln2) = pieces[(piece_idx + 1) % len(pieces)]
+    a2 = (p2[0] + d2[0] * ln2 * 0.5, p2[1] + d2[1] * ln2 * 0.5)
+    b2 = (p2[0] + d2[0] * ln2 * 1.0, p2[1] + d2[1] * ln2 * 1.0)
+    elem2 = mesh.refine_msh_bdr(a2, b2)
+    if elem2 is None or elem2 not in mesh.leaf_elements:
+        fail('bdr:second', 'a second refine_msh_bdr on the same mesh did not return a leaf', None)
+    for pt in (a2, b2):
+        if mesh.vertex_from_coords(pt) is None:
+            fail('bdr:vertex', 'after a second targeted refinement on the same mesh an end point is not retrievable', None)
     boxes = check_quadtree(eng, mesh, roots, root_boxes, fail, exact=False)
     # balance: root boxes are at integer multiples of u
     bad = balance_violations(boxes, root_pos)
@@ -346,6 +368,14 @@ def replay(rp):
 
     def fail(sig, what, model):
         found.append(sig)
+    try:
+        return _replay(rp, IM, found, fail)
+    finally:
+        IM.isclose = models.isclose_model
+        IM.float = models.float_model
+
+
+def _replay(rp, IM, found, fail):
     with Engine(timeout_ms=30000) as eng:
         try:
             if rp['kind'] == 'hist':
